@@ -3,6 +3,8 @@ package main
 import (
 	"encoding/json"
 	"fmt"
+	"net"
+	"sync"
 	"time"
 
 	dest "github.com/grafana/carbon-relay-ng/destination"
@@ -11,7 +13,8 @@ import (
 )
 
 type c15Op struct {
-	Op   string `json:"op"` // add | del | q
+	Op   string `json:"op"` // add | del | q | mod (modDest addr=: the destination is re-pointed to a live listener, which is then closed)
+	Inst string `json:"inst,omitempty"`
 	Addr string `json:"addr,omitempty"`
 	Idx  int    `json:"idx,omitempty"`
 	Name string `json:"name,omitempty"` // hex
@@ -78,6 +81,60 @@ func init() {
 					dests = append(append([]*dest.Destination(nil), dests[:op.Idx]...), dests[op.Idx+1:]...)
 					res = append(res, "ok")
 				}
+			case "mod":
+				if op.Idx >= len(dests) {
+					if ch.UpdateDestination(op.Idx, map[string]string{"addr": "127.0.0.1:1"}) != nil {
+						res = append(res, "err")
+					} else {
+						res = append(res, "ok")
+					}
+					break
+				}
+				ln, err := net.Listen("tcp", "127.0.0.1:0")
+				if err != nil {
+					return nil, err
+				}
+				var conns []net.Conn
+				var cmu sync.Mutex
+				go func() {
+					for {
+						cn, err := ln.Accept()
+						if err != nil {
+							return
+						}
+						cmu.Lock()
+						conns = append(conns, cn)
+						cmu.Unlock()
+					}
+				}()
+				newAddr := ln.Addr().String()
+				if op.Inst != "" {
+					newAddr += ":" + op.Inst
+				}
+				d := dests[op.Idx]
+				if err := ch.UpdateDestination(op.Idx, map[string]string{"addr": newAddr}); err != nil {
+					ln.Close()
+					return nil, err
+				}
+				if !waitFor(3*time.Second, func() bool { return d.Snapshot().Online }) {
+					ln.Close()
+					return nil, fmt.Errorf("re-pointed destination did not connect")
+				}
+				// the endpoint goes away again: the destination is offline from now on (reconnect period: one hour) and every
+				// line it is given is counted under its new key
+				ln.Close()
+				cmu.Lock()
+				for _, cn := range conns {
+					cn.Close()
+				}
+				cmu.Unlock()
+				time.Sleep(50 * time.Millisecond)
+				d.In <- []byte("verif.c15.sacrificial 1 1") // the line that makes the relay loop notice the dead conn
+				if !waitFor(3*time.Second, func() bool { return !d.Snapshot().Online }) {
+					return nil, fmt.Errorf("re-pointed destination did not go offline")
+				}
+				time.Sleep(20 * time.Millisecond)
+				res = append(res, "ok:"+newAddr)
 			case "q":
 				before := counts()
 				line := append(unhx(op.Name), []byte(" 1 1")...)
